@@ -30,7 +30,7 @@ ASSUMPTIONS = [
 ]
 SIZES = {"quick": 1000, "thorough": 8000}
 
-PN = ["a", "b", "c", "ev"]
+PN = ["a", "b", "c", "ev", "num"]
 
 
 def _leaf(fam):
@@ -44,6 +44,7 @@ def _leaf(fam):
         st.tuples(st.just("update"), t, st.lists(st.tuples(n, _val), min_size=1, max_size=3)),
         st.tuples(st.just("trigger"), t, st.lists(st.integers(0, 3), min_size=1, max_size=3, unique=True)),
         st.tuples(st.just("event"), t, st.sampled_from(["set", "update"])),
+        st.tuples(st.just("slot"), t, st.sampled_from(["bounds", "doc"]), st.integers(0, 3)),
     ).map(list)
 
 
@@ -64,10 +65,12 @@ def _tree(fam):
 @st.composite
 def _case(draw):
     fam = draw(st.integers(0, 4))
-    ws = draw(st.lists(watcher_spec(allow_slot=False, allow_class=False, fam=fam), min_size=1, max_size=6))
+    ws = draw(st.lists(watcher_spec(allow_slot=True, allow_class=False, fam=fam), min_size=1, max_size=6))
     for w in ws:
         w["script"] = []
-        if draw(st.integers(0, 4)) == 0:
+        if w["what"] != "value":
+            w["names"] = [4]                                # a watcher of a Parameter attribute of `num` (bounds / doc)
+        elif draw(st.integers(0, 4)) == 0:
             w["names"] = sorted(set(w["names"]) | {3})     # also watches the Event parameter
     prog = draw(st.lists(_tree(fam), min_size=1, max_size=5))
     links = None
@@ -89,16 +92,10 @@ def strategy(tier):
 
 
 class _W(World):
-    """World whose 4th watched name is the Event parameter 'ev' (not 'num')."""
+    """World whose 4th watched name is the Event parameter 'ev'; index 4 is 'num' (slot watchers)."""
 
     def __init__(self, specs):
-        import vlib.dispatch as d
-        self._saved = d.PNAMES[3]
-        d.PNAMES[3] = "ev"
-        try:
-            super().__init__(specs, with_event=True)
-        finally:
-            d.PNAMES[3] = self._saved
+        super().__init__(specs, with_event=True, pnames=["a", "b", "c", "ev", "num"])
 
     def snapshot(self, tidx):
         t = self.targets[tidx]
@@ -106,6 +103,8 @@ class _W(World):
 
 
 def _names(spec):
+    if spec["what"] != "value":
+        return ["num:" + spec["what"]]      # slot watchers live in their own name space
     return [PN[i] for i in spec["names"]]
 
 
@@ -120,6 +119,7 @@ class Model:
         self.windows = []              # (window id, target or None, expected calls dict w -> {...}, flags)
         self.labels = set()
         self.sets_in_batch = [{}, {}]
+        self.slots = [{"bounds": (0, 10), "doc": "d0"}, {"bounds": (0, 10), "doc": "d0"}]
         self.live_new = [{}, {}]       # per target: name -> value of the last non-discarded set since the outermost open
 
     def watchers(self, t, name):
@@ -160,6 +160,16 @@ class Model:
             if k >= 2:
                 self.labels.add("repeated_set_in_batch")
         self._event(t, name, old, v, exp)
+
+    def set_slot(self, t, which, new, exp):
+        old = self.slots[t][which]
+        self.slots[t][which] = new
+        name = "num:" + which
+        if self.stack[t]:
+            self.touched[t].add(name)
+            if not self.discarding(t):
+                self.live_new[t][name] = new
+        self._event(t, name, old, new, exp)
 
     def open(self, t, kind):
         if self.stack[t]:
@@ -225,6 +235,15 @@ def execute(case):
             model.set(t, NAMES[node[2]], v, exp)
             setattr(obj, NAMES[node[2]], v)
             window("set", t, exp)
+        elif kind == "slot":
+            begin()
+            which = node[2]
+            newv = (0, 10 + node[3]) if which == "bounds" else f"d{node[3]}"
+            exp = {}
+            model.set_slot(t, which, newv, exp)
+            setattr(obj.param.num, which, newv)
+            model.labels.add("slot_set_inside_context" if model.stack[t] else "slot_set")
+            window("slot", t, exp)
         elif kind == "update":
             begin()
             kv = {}
@@ -360,6 +379,8 @@ def execute(case):
         for e in got:
             w = e[1]
             evs = e[2]
+            if specs[w]["what"] != "value":
+                evs = [("num:" + specs[w]["what"],) + tuple(r[1:]) for r in evs]
             names = [r[0] for r in evs]
             if len(names) != len(set(names)):
                 res.fail("C04.duplicate_event", f"{where}: w{w} got several events for one parameter: {evs!r}")
@@ -369,7 +390,10 @@ def execute(case):
                     res.fail("C04.missing_event", f"{where}: w{w} got no event for {n}: {evs!r}")
                     continue
                 r = hit[0]
-                if r[2] is not info["new"] and r[2] is not info.get("alt", info["new"]) and not (n == "ev" and r[2] is True):
+                if n.startswith("num:"):
+                    if r[2] != info["new"] and r[2] != info.get("alt", info["new"]):
+                        res.fail("C04.final_value", f"{where}: w{w} event for {n} carries {r[2]!r}, final value is {info['new']!r}")
+                elif r[2] is not info["new"] and r[2] is not info.get("alt", info["new"]) and not (n == "ev" and r[2] is True):
                     res.fail("C04.final_value", f"{where}: w{w} event for {n} carries {r[2]!r}, final value is {info['new']!r}")
                 if r[3] is not None and r[3] != info["typ"]:
                     both = kind.startswith("close") or kind.startswith("upd")
